@@ -27,6 +27,26 @@ type c14Frame struct {
 	K   string `json:"k"`
 	N   int    `json:"n"`
 	Psh bool   `json:"psh"`
+	// At "gap": the frame is injected while the connection's handler is held between finding its receive buffer empty and
+	// starting to wait for the receive loop's notification (hook canary.VerifSocketGap)
+	At string `json:"at,omitempty"`
+}
+
+func init() {
+	canary.VerifSocketGap = func(local, remote net.Addr) {
+		gapGates.mu.Lock()
+		g := gapGates.m["canary/"+remote.String()]
+		delete(gapGates.m, "canary/"+remote.String())
+		gapGates.mu.Unlock()
+		if g == nil {
+			return
+		}
+		close(g.hit)
+		select {
+		case <-g.release:
+		case <-time.After(5 * time.Second):
+		}
+	}
 }
 
 type c14Conn struct {
@@ -257,8 +277,29 @@ func c14Run(sc c14Scenario) c14Result {
 		}
 	}
 	res.Lines = append(res.Lines, c14Line{K: "reset", Scn: sc.ID, Emitted: []c14Emitted{}})
+	// a connection with a frame that is to arrive in the reader's gap: the gate is armed before the handler exists
+	gates := map[int]*gapGate{}
+	for _, fr := range sc.Frames {
+		if fr.At == "gap" && gates[fr.C] == nil {
+			cn := sc.Conns[fr.C-1]
+			gates[fr.C] = armGap("canary/" + (&net.TCPAddr{IP: net.ParseIP(cn.CIP), Port: cn.CPort}).String())
+		}
+	}
 	for _, fr := range sc.Frames {
 		s := states[fr.C-1]
+		if g := gates[fr.C]; fr.At == "gap" && g != nil {
+			select {
+			case <-g.hit:
+			case <-time.After(600 * time.Millisecond):
+				res.Error = "the handler did not come to the gap"
+				return res
+			}
+			delete(gates, fr.C)
+			go func() {
+				time.Sleep(30 * time.Millisecond)
+				close(g.release)
+			}()
+		}
 		seq := s.cn.ISN + 1 + uint32(s.sent)
 		if s.finSent {
 			seq++ // the FIN took a sequence number
